@@ -276,6 +276,64 @@ def _run_shard(args) -> Stats:
     return done()
 
 
+def cov_runner(prop: str, subname: str, quick_s: int = 8, thorough_s: int = 200):
+    """A `Sub.runner` that drives fuzz/fuzz_hyp.py: a coverage-guided atheris (libFuzzer) campaign over the byte
+    stream Hypothesis decodes into cases of sub-check `subname`, judged inside the target by that sub-check's
+    judge.  Findings are re-judged here (without atheris) through `absorb`: only reproducible ones count."""
+
+    def runner(tier, shard, nshards, seed, deadline, absorb):
+        import shutil
+        import subprocess
+        import tempfile
+
+        work = tempfile.mkdtemp(prefix=f"{prop.lower()}-cov-")
+        corpus, out = os.path.join(work, "corpus"), os.path.join(work, "out")
+        os.makedirs(corpus)
+        os.makedirs(out)
+        default = thorough_s if tier == "thorough" else quick_s
+        budget = max(4, min(int(os.environ.get("VERIF_COV_S", default)), int(deadline - time.time()) - 60))
+        verif = os.path.dirname(os.path.dirname(os.path.abspath(__file__)))
+        cmd = [sys.executable, "-B", os.path.join(verif, "fuzz", "fuzz_hyp.py"), "--out", out, "--prop", prop,
+               "--sub", subname, "--tier", tier, corpus, f"-seed={seed % 2147483647 or 1}",
+               f"-max_total_time={budget}", "-max_len=2048", "-len_control=0", "-print_final_stats=0", "-timeout=300",
+               f"-artifact_prefix={out}/"]
+        try:
+            subprocess.run(cmd, stdout=subprocess.DEVNULL, stderr=subprocess.DEVNULL, timeout=budget + 180, check=False,
+                           env=dict(os.environ, PYTHONHASHSEED="0"))
+        except subprocess.TimeoutExpired:
+            pass
+        doc = {}
+        try:
+            doc = json.load(open(os.path.join(out, "count.json")))
+        except (OSError, ValueError):
+            pass
+        herr = os.path.join(out, "harness-error.txt")
+        if os.path.exists(herr):
+            text = open(herr).read()
+            shutil.rmtree(work, ignore_errors=True)
+            raise HarnessError(f"{prop}/{subname} (coverage-guided): {text[:1500]}")
+        nfind = 0
+        for name in sorted(os.listdir(out)):
+            if name.startswith("finding-"):
+                absorb(json.load(open(os.path.join(out, name)))["case"])
+                nfind += 1
+        shutil.rmtree(work, ignore_errors=True)
+        execs = int(doc.get("count", 0))
+        labels = {"cov-executions": execs, "cov-nontrivial": int(doc.get("nontrivial", 0)),
+                  "cov-invalid": int(doc.get("invalid", 0)), "cov-findings-rejudged": nfind, "cov-jobs": 1}
+        for lab, n in sorted((doc.get("labels") or {}).items(), key=lambda kv: -kv[1])[:12]:
+            labels[f"cov:{lab}"] = n
+        return {"executions": execs, "labels": labels}
+
+    return runner
+
+
+def cov_sub(prop: str, base: "Sub", jobs_quick: int = 2, jobs_thorough: int = 8, quick_s: int = 8, thorough_s: int = 200) -> "Sub":
+    """The coverage-guided twin of a Hypothesis sub-check (same strategy, same judge, atheris chooses the bytes)."""
+    return Sub(f"{base.name}-cov", base.judge, runner=cov_runner(prop, base.name, quick_s, thorough_s), quick=1, thorough=1,
+               shards_quick=jobs_quick, shards_thorough=jobs_thorough, minimise=base.minimise)
+
+
 def load_check(prop: str):
     import importlib
 
